@@ -141,11 +141,19 @@ class ScalarFunction:
 
         elif grad in FD_METHODS:
 
+            def fun_in_bounds(x):
+                # A step fitted into the bounds lands on the bound up to rounding
+                # only: project the (real) stencil point, the objective must not be
+                # evaluated one ulp outside the box.
+                if np.isrealobj(x):
+                    x = np.clip(x, *finite_diff_options["bounds"])
+                return fun_wrapped(x)
+
             def update_grad():
                 self._update_fun()
                 self.ngev += 1
                 self.g = approx_derivative(
-                    fun_wrapped, self.x, f0=self.f, **finite_diff_options
+                    fun_in_bounds, self.x, f0=self.f, **finite_diff_options
                 )
                 # A variable with equal lower and upper bounds cannot move: the step
                 # fitted into the bounds is zero and the estimate is 0/0 = nan.
